@@ -280,3 +280,104 @@ Proof.
       repeat (destruct Hin as [<-|Hin]; [vm_compute; reflexivity|]). destruct Hin.
     + vm_compute. do 2 eexists. repeat split; discriminate.
 Qed.
+
+(* ---- configuration attributes assigned on a live genome ------------------ *)
+
+(* "configure, then freeze": a genome built with allow_mutations=True and no
+   callback is tuned (an applied mutation), then locked by assigning
+   allow_mutations = False on the live object.  From the next call on, a
+   re-add, a mutate, a rollback of the earlier (approved) mutation and the
+   replication mutation of a child are refused; the refused mutate / rollback
+   are logged unapproved on the genome, the refused replication mutation on the
+   child; values and hash stay
+   (c20_unauthorised_sequence_changes_nothing with the hypothesis evaluated in
+   the states the calls find; c20_gate_reads_live_configuration;
+   c20_configuration_is_last_assignment; c20_child_same_genes). *)
+Definition setup : list gop := [OMutate 1 6; OSetAllow false].
+Definition L0 := g_run A0 setup.
+Definition locked_ops : list gop :=
+  [ OAdd (mkGene 0 8 Structural 0 false Low); OMutate 0 9; ORollback 1; OSilence 2;
+    OReplicate [(1, VInt 3)] true []; OSetRate 64; OSetCb None; OMutate 1 7 ].
+
+Example ex_lock_after_setup :
+  allow A0 = true /\ stored A0 1 = Some (VInt 5) /\ stored L0 1 = Some (VInt 6) /\
+  allow L0 = false /\ allow L0 = last_allow setup (allow A0) /\
+  mlog L0 = [mkM 1 5 6 RUser true] /\
+  all_unauthorised L0 locked_ops /\
+  vals (g_run L0 locked_ops) = vals L0 /\ ghash (g_run L0 locked_ops) = ghash L0 /\
+  mlog (g_run L0 locked_ops) =
+    mlog L0 ++ [mkM 0 1 9 RUser false; mkM 1 6 5 RRollback false; mkM 1 6 7 RUser false] /\
+  (exists W', step [L0] (0%nat, OMutate 0 9) = (W', RetBool false)) /\
+  let c := g_replicate_full L0 [(1, VInt 3)] true [] in
+  allow c = false /\ stored c 1 = Some (VInt 6) /\ mlog c = [mkM 1 6 3 RReplication false].
+Proof.
+  split; [reflexivity|]. split; [reflexivity|]. split; [reflexivity|]. split; [reflexivity|].
+  split; [reflexivity|]. split; [reflexivity|]. split.
+  - cbn [all_unauthorised locked_ops unauthorised].
+    repeat split; try (intros; vm_compute in *; congruence).
+  - vm_compute. repeat split. eexists. reflexivity.
+Qed.
+
+(* the other way round, and callbacks swapped on the live object: a genome
+   built locked with no callback; on_mutation := user_only authorises a user
+   mutation (applied, logged approved) but not its rollback (refused, logged);
+   on_mutation := None refuses again; allow_mutations := True then lets the
+   rollback through.  The change of gene 0 is attributed to the call made when
+   user_only was installed (c20_change_needs_authorisation_at_call_time);
+   the first three calls keep allow_mutations off, so the replay theorem applies
+   with the callbacks [None; user_only; None] installed along the way
+   (c20_unauthorised_ops_change_nothing). *)
+Definition swap_ops : list gop :=
+  [ OMutate 0 2; OSetCb user_only; OMutate 0 3; ORollback 0; OSetCb None; OMutate 0 4 ].
+Example ex_callback_swapped :
+  never_enabled swap_ops /\ allow D0 = false /\
+  mlog (g_run D0 swap_ops) =
+    [ mkM 0 1 2 RUser false; mkM 0 1 3 RUser true; mkM 0 3 1 RRollback false; mkM 0 3 4 RUser false ] /\
+  stored (g_run D0 swap_ops) 0 = Some (VInt 3) /\
+  (let Gk := g_run D0 [OMutate 0 2; OSetCb user_only] in
+   swap_ops = [OMutate 0 2; OSetCb user_only] ++ OMutate 0 3 :: [ORollback 0; OSetCb None; OMutate 0 4] /\
+   stored Gk 0 = Some (VInt 1) /\ authorised_change Gk (OMutate 0 3) 0) /\
+  stored (g_run D0 (swap_ops ++ [OSetAllow true; ORollback 0])) 0 = Some (VInt 1) /\
+  cb (g_run D0 swap_ops) = last_cb swap_ops (cb D0) /\ last_cb swap_ops (cb D0) = None.
+Proof.
+  split.
+  - intros o Hin. unfold swap_ops in Hin. cbn [In] in Hin.
+    repeat (destruct Hin as [<-|Hin]; [reflexivity|]). destruct Hin.
+  - split; [reflexivity|]. split; [vm_compute; reflexivity|]. split; [vm_compute; reflexivity|].
+    split; [|split; [vm_compute; reflexivity | split; reflexivity]].
+    split; [reflexivity|]. split; [vm_compute; reflexivity|].
+    cbn [authorised_change]. split; [reflexivity|]. exists (VInt 1). split; vm_compute; reflexivity.
+Qed.
+
+(* c20_config_assignment_changes_only_config: the assignment on the parent is
+   not seen by an existing child *)
+Example ex_assignment_is_local :
+  let W := run [P0] [(0%nat, OReplicate [] true [])] in
+  exists W', step W (0%nat, OSetAllow true) = (W', RetNothing) /\
+    option_map allow (nth_error W' 0) = Some true /\ option_map allow (nth_error W' 1) = Some false /\
+    option_map ghash (nth_error W' 0) = Some (ghash P0).
+Proof. eexists. split; [vm_compute; reflexivity|]. vm_compute. repeat split. Qed.
+
+(* ---- long histories ------------------------------------------------------- *)
+
+(* c20_rollback_restores / c20_log_keeps_every_attempt / c20_repetition_is_iteration
+   on a history of 302 calls: an approved mutation of gene 0 (1 -> 2), then 300
+   refused attempts on gene 1 -- every one of them logged --, then the rollback
+   of gene 0, which still finds the approved entry behind the 300 refused ones
+   and restores 1; the log has all 302 entries, the first one first *)
+Definition long_hist : list rop :=
+  [ (0%nat, 1%nat, OMutate 0 2); (0%nat, 300%nat, OMutate 1 6); (0%nat, 1%nat, ORollback 0) ].
+
+Example ex_long_history :
+  length (expand long_hist) = 302%nat /\
+  exists G', nth_error (run [P0] (expand long_hist)) 0 = Some G' /\
+    stored G' 0 = Some (VInt 1) /\ ghash G' = ghash P0 /\
+    length (mlog G') = 302%nat /\ length (filter m_approved (mlog G')) = 2%nat /\
+    hd_error (mlog G') = Some (mkM 0 1 2 RUser true) /\
+    nth_error (mlog G') 300 = Some (mkM 1 5 6 RUser false) /\
+    nth_error (mlog G') 301 = Some (mkM 0 2 1 RRollback true) /\
+    snd (fst (rep_compact [] [P0] 0 (OMutate 1 6) 300)) = run [P0] (repeat (0%nat, OMutate 1 6) 300).
+Proof.
+  split; [vm_compute; reflexivity|]. eexists. split; [vm_compute; reflexivity|].
+  vm_compute. repeat split.
+Qed.
